@@ -120,8 +120,39 @@ static int check_copies(bool verbose) {
   return bad;
 }
 
+/* wiring: for small layouts with every periodicity combination (including one subgrid on a periodic axis) every
+ * neighbour entry must be the subgrid at the offset position, wrapped per periodic axis, or NEIGHBOUR_OUTSIDE */
+static int check_wiring(bool verbose) {
+  int bad = 0;
+  const int layouts[4][3] = {{1, 1, 1}, {1, 2, 2}, {2, 1, 1}, {2, 2, 1}};
+  for (int l = 0; l < 4; ++l)
+    for (int per = 0; per < 8; ++per) {
+      const int n[3] = {layouts[l][0], layouts[l][1], layouts[l][2]};
+      const bool p[3] = {(per & 1) != 0, (per & 2) != 0, (per & 4) != 0};
+      DensitySubGridCreator< DensitySubGrid > creator(Box<>(CoordinateVector<>(0.), CoordinateVector<>(1.)), CoordinateVector< int_fast32_t >(4 * n[0], 4 * n[1], 4 * n[2]),
+                                                      CoordinateVector< int_fast32_t >(n[0], n[1], n[2]), CoordinateVector< bool >(p[0], p[1], p[2]));
+      HomogeneousDensityFunction density_function;
+      creator.initialize(density_function);
+      for (int ix = 0; ix < n[0]; ++ix) for (int iy = 0; iy < n[1]; ++iy) for (int iz = 0; iz < n[2]; ++iz) {
+        const size_t index = (ix * n[1] + iy) * n[2] + iz;
+        for (int d = 0; d < 27; ++d) {
+          int c[3] = {ix + S[d][0], iy + S[d][1], iz + S[d][2]};
+          bool inside = true;
+          for (int a = 0; a < 3; ++a) { if (p[a]) c[a] = (c[a] + n[a]) % n[a]; inside = inside && c[a] >= 0 && c[a] < n[a]; }
+          const uint_fast32_t want = inside ? (uint_fast32_t)((c[0] * n[1] + c[1]) * n[2] + c[2]) : NEIGHBOUR_OUTSIDE;
+          const uint_fast32_t got = (*creator.get_subgrid(index)).get_neighbour(d);
+          if (got != want && !bad) {
+            bad = 1;
+            if (verbose) std::printf("REPRODUCED: layout %dx%dx%d periodic (%d,%d,%d): neighbour of subgrid %zu through code %d is %lu, the subgrid at the (wrapped) offset position is %lu\n", n[0], n[1], n[2], (int)p[0], (int)p[1], (int)p[2], index, d, (unsigned long)got, (unsigned long)want);
+          }
+        }
+      }
+    }
+  return bad;
+}
+
 int main(int argc, char **argv) {
-  if (argc >= 4 && std::string(argv[1]) == "fidelity") { if (check_all(true) | check_copies(true)) { std::fprintf(stderr, "FIDELITY MISMATCH\n"); return 1; } std::printf("FIDELITY OK cases=%d\n", 27 + 27 * 343 + 64); return 0; }
-  if (argc >= 3 && std::string(argv[1]) == "replay") { int b = check_all(true) | check_copies(true); if (!b) std::printf("NOT-REPRODUCED\n"); return b; }
+  if (argc >= 4 && std::string(argv[1]) == "fidelity") { if (check_all(true) | check_copies(true) | check_wiring(true)) { std::fprintf(stderr, "FIDELITY MISMATCH\n"); return 1; } std::printf("FIDELITY OK cases=%d\n", 27 + 27 * 343 + 64); return 0; }
+  if (argc >= 3 && std::string(argv[1]) == "replay") { int b = check_all(true) | check_copies(true) | check_wiring(true); if (!b) std::printf("NOT-REPRODUCED\n"); return b; }
   return 2;
 }
